@@ -348,7 +348,7 @@ def stability(case, ph=None):
 def _structured(rng, tier):
     arrangement = rng.choice(["square", "square", "hexagonal"])
     pallet = rng.random() < 0.3
-    big = 64 if tier == "quick" else 200
+    big = 64 if tier == "quick" else 100
     while True:
         if pallet:
             shape = [rng.randint(1, 5), rng.randint(1, 5), rng.randint(2, 4)]
